@@ -1,7 +1,7 @@
 (** C05: generic definitions are recovered as generics (source round trip). *)
 From Coq Require Import List NArith String Bool.
 From V Require Import Base.Util Base.Strings Base.Result Model.Registry Model.Settings Model.Subst
-  Model.TypePath Model.Program Model.ProgramTeq Checkers.Parse Checkers.Sem Corr.RunTG Corr.CheckTG.
+  Model.TypePath Model.Program Model.ProgramSkel Model.ProgramTeq Model.Program1 Checkers.Parse Checkers.Sem Corr.RunTG Corr.CheckTG.
 Import ListNotations.
 Open Scope string_scope. Open Scope list_scope.
 
@@ -10,6 +10,8 @@ Record c05_case := mk_c05 {
   c5_insts : list (nat * list src);     (* every interned closed instantiation *)
   c5_labels : list (option src);        (* per id: the closed source type the entry stands for ([canon] form;
                                            None = bit-order marker), as the harness interner registered it *)
+  c5_raw_labels : list (option src);    (* the same labels AS WRITTEN: the closed source type the entry was first
+                                           registered for (Box / VecDeque kept) *)
   c5_tg : tg_case }.
 
 Definition segs_lead (t : tokens) : list string * bool :=
@@ -160,3 +162,72 @@ Definition hyp_identity_duplicates (c : c05_case) : bool := negb (labels_injecti
 
 Definition hyp_prelude_nodocs (c : c05_case) : bool :=
   prelude_nodocs_b (tg_reg (c5_tg c)).
+
+(** ** the registry is the REAL registry of the program ([RegistryOf1], Model/Program1.v)
+
+    [hyp_registry_of1] = [registry_of1b] on the interner's labels as written, put into [ident1]
+    normal form (one step of [Identity] at the top, nothing below): labels normal, every entry the
+    derive's entry for the peeled label with children looked up by their [ident1] form, one id per
+    label.  Sound for [RegistryOf1] ([C05_registry_of1b_sound], with [hyp_prelude_nodocs]), the
+    hypothesis of [C05_skeleton_is_source1] / [C05_one_item1] / [C05_program_skeleton_consistent1].
+    Expected to hold on EVERY case, the cases with [hyp_identity_duplicates] included. *)
+Definition c5_labels1 (c : c05_case) : list (option src) := ident1_labels (c5_raw_labels c).
+
+Definition hyp_registry_of1 (c : c05_case) : bool :=
+  registry_of1b (pg_defs (c5_prog c)) (c5_labels1 c) (tg_reg (c5_tg c)).
+
+(** the same as a gate: the interner's registry IS the program's registry in the sense of
+    [RegistryOf1] on every case (as [corr_registry_of] ties its entries to [RegistryOf]) *)
+Definition corr_registry_of1 (c : c05_case) : bool := hyp_registry_of1 c.
+
+(** the two printed label lists agree: the [canon] labels are [canon] of the labels as written *)
+Definition hyp_labels_agree (c : c05_case) : bool :=
+  list_eqb (option_eqb src_eqb)
+           (map (fun o => match o with Some x => Some (canon x) | None => None end) (c5_raw_labels c))
+           (c5_labels c).
+
+(** coincidence-freeness restated on ids ([instantiation_cf1]) of every interned instantiation *)
+Definition cf1_def (c : c05_case) (k : nat) (d : sdef) : bool :=
+  match insts_of c k with
+  | [] => false
+  | l => forallb (instantiation_cf1 (pg_defs (c5_prog c)) d) l
+  end.
+
+Definition hyp_all_cf1 (c : c05_case) : bool :=
+  forallb (fun kd : nat * sdef => match insts_of c (fst kd) with [] => true | _ => cf1_def c (fst kd) (snd kd) end)
+          (defs_indexed c).
+
+(** cases on which the restated condition admits a program the [canon] one rejects *)
+Definition hyp_cf1_only (c : c05_case) : bool := hyp_all_cf1 c && negb (hyp_all_cf c).
+
+(** every hypothesis of [C05_skeleton_is_source1] / [C05_one_item1] (all of them decidable) holds
+    of the case, for EVERY interned instantiation: the real registry is the program's
+    ([registry_of1b], prelude entries without docs), the settings are compatible with every
+    definition, every instantiation is coincidence-free on ids *)
+Definition hyp_thm1_premises (c : c05_case) : bool :=
+  let defs := pg_defs (c5_prog c) in
+  let s := settings_of (tg_spec (c5_tg c)) in
+  hyp_registry_of1 c && hyp_prelude_nodocs c && prelude_okb s && order_resolvesb s &&
+  forallb (fun kd : nat * sdef =>
+             let d := snd kd in
+             def_okb s d && forallb (fun f => no_cow_cow (sf_ty f)) (def_sfields d) && box_names_okb defs d &&
+             forallb (fun args => instantiation_cf1 defs d args && compact_fields_okb1 defs d args)
+                     (insts_of c (fst kd)))
+          (defs_indexed c).
+
+(** ... on a registry with identity duplicates: the cases the [..1] theorems speak about and the
+    theorems on [RegistryOf] do not *)
+Definition hyp_thm1_on_duplicates (c : c05_case) : bool := hyp_thm1_premises c && hyp_identity_duplicates c.
+
+(** the same for the theorems on [RegistryOf] ([C05_program_skeleton_consistent]) *)
+Definition hyp_thm_premises (c : c05_case) : bool :=
+  let defs := pg_defs (c5_prog c) in
+  let s := settings_of (tg_spec (c5_tg c)) in
+  hyp_registry_of c && hyp_prelude_nodocs c && prelude_okb s && order_resolvesb s &&
+  forallb (fun kd : nat * sdef =>
+             let d := snd kd in
+             def_okb s d && forallb (fun f => no_cow_cow (sf_ty f)) (def_sfields d) && box_names_okb defs d &&
+             forallb (fun args => instantiation_cf defs d args && list_eqb src_eqb (map canon args) args &&
+                                  compact_fields_okb defs d args)
+                     (insts_of c (fst kd)))
+          (defs_indexed c).
